@@ -184,7 +184,7 @@ def make_text(rng):
         elif r < 0.62 and parts:
             parts.append(parts[rng.randrange(len(parts))])
             kinds.add("repeat")
-        elif r < 0.67:
+        elif r < 0.655:
             # same assignment, other spelling
             ver = rng.choice("23")
             p_, m, s = V.rand_vector(rng, ver)
@@ -192,6 +192,24 @@ def make_text(rng):
             parts.append(rng.choice([" ", "\n", ", "]))
             parts.append(V.spell(p_, m, "shuffle", rng))
             kinds.add("respelled-repeat")
+        elif r < 0.685:
+            # two DIFFERENT vectors that score alike: an absent optional metric against the value declared equivalent
+            # (E:H, TD:H, CR:M ...) or, in v3, against the base metric's own value (MAV:N next to AV:N) -- not equal
+            # objects (they define different metric values), so both must come back
+            ver = rng.choice("23")
+            p_, m, s = V.rand_vector(rng, ver, p_opt=0.3, p_nd=0.5)
+            fs = [f for f in T.parse(ver, s)[1]]
+            have = dict(fs)
+            cands = [(k, v) for k, v in T.ND_EQUIV[ver].items() if have.get(k, T.ND[ver]) == T.ND[ver]]
+            if ver == "3":
+                cands += [(mk, have[bk]) for mk, bk in T.MODIFIED["3"].items() if have.get(mk, "X") == "X" and bk in have]
+            if cands:
+                k, v = rng.choice(cands)
+                fs2 = [f for f in fs if f[0] != k] + [(k, v)]
+                parts.append(s)
+                parts.append(rng.choice([" ", "\n", ", ", " vs. "]))
+                parts.append(T.spell(p_, fs2))
+                kinds.add("score-equivalent-but-different-vectors")
         elif r < 0.70:
             # v3-shaped vector whose minor version is a NON-ASCII digit (\d and int() accept
             # such characters): not a valid vector, must not be returned
